@@ -65,14 +65,28 @@ def gen_case(rng):
     else:
         case["threshold"] = rng.choice([None, None, "1/2", "0", "0", "1/1000"])
         case["threshold_int"] = rng.random() < 0.5           # 0 passed as int 0 or float 0.0
-    if kind.startswith("essential") and rng.random() < 0.4:
+    if kind.startswith("essential") and rng.random() < (0.9 if case.get("threshold") == "0" else 0.4):
         # a thin bypass next to a well-used reaction: knocking the reaction out leaves a growth far below 1 % of the optimum but above zero
         cands = [r for r in spec["rxns"] if len(r["st"]) > 1 and fbagen.fr(r["ub"]) is not None and fbagen.fr(r["ub"]) >= 5]
         if cands:
-            r0 = rng.choice(cands)
-            spec["rxns"].append({"id": "LEAK", "st": dict(r0["st"]), "lb": "0", "ub": rng.choice(["1/500", "1/1000", "1/200"]), "rule": ""})
-            if "gene" not in kind:
-                pool = pool + ["LEAK"]
+            # (for an explicit threshold of zero: a bypass next to several of them, so that whichever reaction the growth depends on has one)
+            picks = rng.sample(cands, min(len(cands), 4)) if case.get("threshold") == "0" else [rng.choice(cands)]
+            for k, r0 in enumerate(picks):
+                lid = "LEAK" if k == 0 else f"LEAK{k}"
+                spec["rxns"].append({"id": lid, "st": dict(r0["st"]), "lb": "0", "ub": rng.choice(["1/500", "1/1000", "1/200"]), "rule": ""})
+                if "gene" not in kind:
+                    pool = pool + [lid]
+    if kind.startswith("essential") and case.get("threshold") == "0" and rng.random() < 0.7:
+        # a growth strictly between zero and 1 % of the optimum, by construction: the objective is the outflow of a two-step chain whose middle step has
+        # a thin parallel bypass — knocking the middle step out leaves 1/500 of a wild-type growth of 10
+        gz = GENES[0]
+        spec["rxns"] += [{"id": "SRC_Z", "st": {"Z1": "1"}, "lb": "0", "ub": "10", "rule": ""},
+                         {"id": "MAIN_Z", "st": {"Z1": "-1", "Z2": "1"}, "lb": "0", "ub": "1000", "rule": gz},
+                         {"id": "THIN_Z", "st": {"Z1": "-1", "Z2": "1"}, "lb": "0", "ub": "1/50", "rule": ""},
+                         {"id": "OUT_Z", "st": {"Z2": "-1"}, "lb": "0", "ub": "1000", "rule": ""}]
+        spec["obj"] = {"OUT_Z": "1"}
+        spec["dir"] = "max"
+        pool = pool + ([gz] if ("gene" in kind and gz not in pool) else []) + ([] if "gene" in kind else ["SRC_Z", "MAIN_Z", "THIN_Z", "OUT_Z"])
     case["_pool"] = pool
     case["history"] = rng.choice([None, None, "optimize", "deletion", "ctx_solve", "ctx_infeasible"])
     if kind.startswith("essential"):
